@@ -20,8 +20,9 @@ CPU_BUDGET = 700
 REQUIRED_OBS = ["sessions_traced", "ops_recorded", "prefix_images_opened", "images_rejected", "images_complete"]
 RULE = ("create and append sessions on small member lists (every header mode, +-password, several chains; append onto py7zr-written and reference-written bases; "
         "append sessions that add nothing or only data-less members under the Copy chain, so that the new header lands exactly on the old one). The session's op stream is recorded at two levels: what py7zr issues on a caller-supplied stream (TraceIO) and what "
-        "reaches the OS below Python's buffering (raw FileIO under a BufferedRandom). For EVERY byte prefix of the op stream, and for the variants 'op i lost, op i+1 "
-        "applied', the file image is rebuilt and opened with py7zr (getnames+extractall) and the reference reader. Violation: an image that opens successfully with a "
+        "reaches the OS below Python's buffering (raw FileIO under a BufferedRandom); flush() on the caller's stream and fsync() on the file are recorded as barriers; sessions appending a member crafted "
+        "to pass for the old header (same length, CRC-32 forced) where the old header was. For EVERY byte prefix of the op stream, and for the variants 'op i lost or late, op i+1 "
+        "applied' (unless a barrier separates the two), the file image is rebuilt and opened with py7zr (getnames+extractall) and the reference reader. Violation: an image that opens successfully with a "
         "member list/bytes that is neither the complete post-state nor (append) the pre-state. Cell = (session kind, header, chain, trace level, outcome class).")
 EXHAUSTIVE = {"quick": "every byte prefix of every recorded session (40 sessions)", "thorough": "every byte prefix of every recorded session (600 sessions)"}
 ASSUMPTIONS = ["crash model: the file holds exactly a prefix of the ordered write stream (optionally with one lost write); no torn sectors beyond byte granularity"]
@@ -43,6 +44,11 @@ class TraceIO(io.BytesIO):
     def truncate(self, size=None):
         self.ops.append(("t", self.tell() if size is None else size, b""))
         return super().truncate(size)
+
+    def flush(self):
+        # all a writer can do on a caller-supplied stream to order what it wrote before against what follows
+        self.ops.append(("b", 0, b""))
+        return super().flush()
 
 
 class RawTrace(io.FileIO):
@@ -101,7 +107,83 @@ def cases(rng, tier):
             m["content"] = {"len": 0, "tex": "zeros", "seed": 0}
         out.append({"kind": "append", "password": None, "chain": G.chain(rng, comp="COPY", aes=False), "header": rng.choice(["encoded", "encoded", "raw"]), "members": mem,
                     "base": base, "level": rng.choice(["stream", "raw"]), "seed": rng.getrandbits(32)})
+    # an appended member crafted to be taken for the header while the old signature header is valid (third hunt): only the order of
+    # the session's first two writes - start header CRC spoiled, then data over the old header - stands against it
+    for i in range(8 if tier == "quick" else 60):
+        base = {"kind": "py", "members": G.member_list(rng, n=rng.choice([1, 2]), max_len=120, flavours=["ascii"]), "chain": G.chain(rng, comp=rng.choice(["LZMA2", "COPY"]), aes=False), "header": "encoded"}
+        out.append({"kind": "append", "crafted": True, "password": None, "chain": G.chain(rng, comp="COPY", aes=False), "header": rng.choice(["encoded", "raw"]), "members": [],
+                    "base": base, "level": ["stream", "raw"][i % 2], "seed": rng.getrandbits(32)})
     return out
+
+
+def _force_crc(prefix, suffix, target):
+    """4 bytes x with crc32(prefix + x + suffix) == target: CRC-32 is affine in x for fixed lengths; solve the 32x32 system over GF(2)."""
+    import struct
+    import zlib
+
+    def f(x):
+        return zlib.crc32(prefix + x + suffix) & 0xFFFFFFFF
+
+    base = f(b"\0\0\0\0")
+    cols = [f(struct.pack("<L", 1 << i)) ^ base for i in range(32)]
+    want = target ^ base
+    rows = [[sum(((cols[i] >> bit) & 1) << i for i in range(32)), (want >> bit) & 1] for bit in range(32)]
+    piv, r_i = [], 0
+    for col in range(32):
+        p_ = next((j for j in range(r_i, 32) if rows[j][0] >> col & 1), None)
+        if p_ is None:
+            continue
+        rows[r_i], rows[p_] = rows[p_], rows[r_i]
+        for j in range(32):
+            if j != r_i and rows[j][0] >> col & 1:
+                rows[j][0] ^= rows[r_i][0]
+                rows[j][1] ^= rows[r_i][1]
+        piv.append(col)
+        r_i += 1
+    x = 0
+    for j, col in enumerate(piv):
+        if rows[j][1]:
+            x |= 1 << col
+    res = struct.pack("<L", x)
+    return res if f(res) == target else None
+
+
+def _crafted_members(initial, case, pw):
+    """The member an adversary would have appended (found by a bug hunt): under the Copy chain its bytes land on the old header,
+    and where the old header was they are a raw header of the same length and the same CRC-32 (four forced bytes in a dummy
+    property) listing one empty file 'E'. While the old signature header is valid, the file opens as that archive."""
+    import struct
+
+    import py7zr
+
+    if len(initial) < 32:
+        return None
+    ofs, size, ncrc = struct.unpack("<QQL", initial[12:32])
+    q = 32 + ofs
+    # where does an append session start to write? ask a probe session
+    t = TraceIO(initial)
+    try:
+        z = py7zr.SevenZipFile(t, "a", filters=[{"id": py7zr.FILTER_COPY}], password=pw)
+        z.writestr(b"probe", "probe")
+        z.close()
+    except Exception:
+        return None
+    ws = [o for o in t.ops if o[0] == "w" and o[1] >= 32]
+    if not ws:
+        return None
+    p = ws[0][1]
+    name = "E".encode("utf-16le") + b"\0\0"
+    head = b"\x01\x05\x01" + b"\x0e\x01\x80" + b"\x0f\x01\x80" + b"\x11" + bytes([len(name) + 1]) + b"\x00" + name
+    k = size - len(head) - 2 - 2
+    if q < p or not 4 <= k < 128:
+        return None
+    pre = head + b"\x19" + bytes([k]) + b"\0" * (k - 4)
+    x = _force_crc(pre, b"\x00\x00", ncrc)
+    if x is None:
+        return None
+    fake = pre + x + b"\x00\x00"
+    filler = bytes((case["seed"] >> (8 * (i % 4))) & 0xFF or 0x2E for i in range(q - p))
+    return [("innocent.bin", filler + fake)]
 
 
 def _images(initial, ops):
@@ -120,15 +202,20 @@ def _images(initial, ops):
 
     yield ("initial", bytes(img))
     for i, op in enumerate(ops):
+        if op[0] == "b":
+            continue  # a barrier (flush on a caller's stream, fsync on a file): changes nothing, orders what surrounds it
         if op[0] == "w":
             for k in range(1, len(op[2])):
                 tmp = bytearray(img)
                 apply(tmp, op, k)
                 yield ("op%d+%d" % (i, k), bytes(tmp))
-        # variant: this op lost, the next one applied
-        if i + 1 < len(ops):
+        # variant: this op lost (or late), the next one applied - unless the session put a barrier between the two
+        j = i + 1
+        while j < len(ops) and ops[j][0] == "b":
+            j += 1
+        if j < len(ops) and j == i + 1:
             tmp = bytearray(img)
-            apply(tmp, ops[i + 1])
+            apply(tmp, ops[j])
             yield ("op%d-lost" % i, bytes(tmp))
         apply(img, op)
         yield ("op%d" % i, bytes(img))
@@ -188,7 +275,13 @@ def run_case(case):
                 return K.result("held", cell="skip-base", nontrivial=False, obs={"skipped_base": 1})
         new = K.mat_members(case["members"])
         mode = "w" if case["kind"] == "create" else "a"
+        if case.get("crafted"):
+            new = _crafted_members(initial, case, pw)
+            if new is None:
+                return K.result("held", cell="skip-crafted", nontrivial=False, obs={"skipped_crafted": 1})
+            obs["crafted_sessions"] = 1
         # ---- traced session
+        o_fsync = os.fsync
         try:
             if case["level"] == "stream":
                 t = TraceIO(initial)
@@ -200,6 +293,13 @@ def run_case(case):
                 raw = RawTrace(p, "r+b")
                 t = raw
                 src = io.BufferedRandom(raw)
+
+                def traced_fsync(fd):
+                    if fd == raw.fileno():
+                        raw.ops.append(("b", 0, b""))
+                    return o_fsync(fd)
+
+                os.fsync = traced_fsync
             z = py7zr.SevenZipFile(src, mode, filters=G.resolve_chain(case["chain"]), password=pw)
             if case["header"] == "raw":
                 z.set_encoded_header_mode(False)
@@ -218,7 +318,10 @@ def run_case(case):
             return K.result("held", cell="rejected", nontrivial=False, obs={"rejected_by_writer": 1})
         except Exception as e:
             return K.result("held", cell="skip-session-raises", nontrivial=False, obs={"skipped_session_raises": 1}, sample={"skip": pz.exc_sig(e)})
+        finally:
+            os.fsync = o_fsync
         ops = list(t.ops)
+        obs["barriers_seen"] = sum(1 for o in ops if o[0] == "b")
         obs["sessions_traced"] = 1
         obs["ops_recorded"] = len(ops)
         # post model from the final image (must itself be right)
